@@ -222,24 +222,23 @@ def extName : ILPure → Option String
   | .ext (.id n) => some n
   | _ => none
 
-/-- the write of `v` (32 bit) to the abstract cell of `field` -/
+/-- the write of `v` (32 bit) to the abstract cell of `field`.  A value of another sort is outside this reading
+    (`undef`, not a sort error of the IL: the prototype of the routine is checked per output by `wfEffect` against
+    the signature of the compiled body). -/
 def writeUsr (σ : MState) (field : String) (v : Val) : Except Stuck MState :=
   match v with
   | .bv w x =>
       if w = 32 then
         .ok { σ with new := fun k => if k == usrCell field then x.toNat else σ.new k,
                      written := fun k => if k == usrCell field then true else σ.written k }
-      else .error (.sort s!"set_usr_field value of width {w}")
-  | _ => .error (.sort "set_usr_field value")
+      else .error (.undef "set_usr_field: value is not 32 bit wide")
+  | _ => .error (.undef "set_usr_field: value is not a bit-vector")
 
 /-- `hex_set_usr_field(bundle, FIELD, v)` on evaluated arguments -/
 def setUsrFieldIL (σ : MState) (args : List ILPure) (vs : List Val) : Except Stuck MState :=
-  match args, vs with
-  | [_, fld, _], [_, _, v] =>
-      match extName fld with
-      | some n => writeUsr σ n v
-      | none => .error (.sort "set_usr_field field")
-  | _, _ => .error (.sort "set_usr_field arity")
+  match args.map extName, vs with
+  | [_, some n, _], [_, _, v] => writeUsr σ n v
+  | _, _ => .error (.undef "set_usr_field: argument list")
 
 /-- Compiled sub-routine bodies: name ↦ (parameter names, body). -/
 abbrev SubEnv := List (String × (List String × ILEffect))
